@@ -432,3 +432,27 @@ Qed.
 Theorem archive_index_never_panics : forall strip size_max ms,
   is_panic (archive_index strip size_max ms) = false.
 Proof. intros. rewrite archive_index_docs. reflexivity. Qed.
+
+(** ---------- what Builder.Add leaves of a document's content *)
+
+Theorem builder_view_cases : forall size_max c,
+  (size_max < length c -> builder_view size_max c = marker_too_large) /\
+  (length c <= size_max -> c = [] -> builder_view size_max c = []) /\
+  (length c <= size_max -> 1 <= length c < 3 -> builder_view size_max c = marker_too_small) /\
+  (length c <= size_max -> 3 <= length c -> In 0%N c -> builder_view size_max c = marker_binary) /\
+  (length c <= size_max -> 3 <= length c -> ~ In 0%N c -> builder_view size_max c = c).
+Proof.
+  intros size_max c. unfold builder_view.
+  destruct (size_max <? length c) eqn:E; [apply Nat.ltb_lt in E|apply Nat.ltb_ge in E].
+  - repeat split; intros; try reflexivity; lia.
+  - split; [intro; lia|]. split; [intros _ Hc; subst; reflexivity|].
+    destruct c as [|x c']; [cbn; repeat split; intros; lia|]. remember (x :: c') as c.
+    destruct (length c <? 3) eqn:E3; [apply Nat.ltb_lt in E3|apply Nat.ltb_ge in E3].
+    + repeat split; intros; try reflexivity; lia.
+    + split; [intros; lia|].
+      destruct (has_nul c) eqn:Hn.
+      * split; [reflexivity|]. intros _ _ Hnot. exfalso. apply Hnot. unfold has_nul in Hn. apply existsb_exists in Hn.
+        destruct Hn as [z [Hz Hz0]]. apply N.eqb_eq in Hz0. subst z. exact Hz.
+      * split; [|reflexivity]. intros _ _ Hin. exfalso. assert (has_nul c = true) as C.
+        { unfold has_nul. apply existsb_exists. exists 0%N. split; [exact Hin|reflexivity]. } rewrite C in Hn. discriminate.
+Qed.
